@@ -20,6 +20,11 @@ def bounds(tier):
     return {"L": 3 if tier == "quick" else 4}
 
 
+def _mlp():
+    from sklearn.neural_network import MLPRegressor
+    return MLPRegressor(hidden_layer_sizes=(3,), max_iter=15, warm_start=True, random_state=0, solver="sgd", learning_rate_init=0.05)
+
+
 def _models():
     from sklearn.linear_model import LinearRegression, LogisticRegression
     from sklearn.tree import DecisionTreeClassifier, DecisionTreeRegressor
@@ -32,12 +37,16 @@ def _models():
         "dtr": (lambda: DecisionTreeRegressor(max_depth=2, random_state=0), ["predict"], ("max_depth", 3)),
         "kmeans": (lambda: KMeans(n_clusters=2, n_init=2, random_state=0), ["predict", "transform"], ("n_clusters", 3)),
         "scaler": (lambda: StandardScaler(), ["transform"], ("with_mean", False)),
+        # fitted state kept as LISTS of arrays and updated in place by a further fit (warm_start)
+        "mlp": (lambda: _mlp(), ["predict"], ("alpha", 0.01)),
     }
 
 
 def cases(tier, seed):
     L = bounds(tier)["L"]
     for name, (_f, methods, _p) in _models().items():
+        if name == "mlp":
+            continue      # warm_start carries state across fits by design: a directly fitted clone is not a reference for fit;fit histories
         for meth in methods + ["callable", None]:
             yield {"kind": "learner", "model": name, "method": meth, "L": L}
     # member order matters for the dtype of the concatenation: integer-valued outputs (class labels, cluster ids) first, then floats
@@ -163,7 +172,7 @@ def run_case(case):
             viol.append({"sig": sig, "msg": msg[:900]})
 
     def yfor(name, d):
-        return d["y"].astype(float) * 1.5 + d["X"][:, 0] if name in ("linreg", "dtr") else d["y"]
+        return d["y"].astype(float) * 1.5 + d["X"][:, 0] if name in ("linreg", "dtr", "mlp") else d["y"]
 
     cnt = trans = ntriv = 0
     L = case["L"]
